@@ -303,14 +303,18 @@ theorem C10_exp_fresh_agent (c : ECfg) (cap : Nat) (ops : List EOp) (a : Aid) :
     simp [espec, List.foldl_append, especStep, hm', hr', upd]
   · rw [getPos_of_idx h'.inv hidx, hstep, h.inv.len]; rfl
 
-/-- Experimental, every history: every agent of the space has a row — reading its position never raises, whether or not it has
-    been assigned one (the bookkeeping of `C10_exp_positions_all_histories` says what it reads only once it was assigned). -/
+/-- Experimental, every history: every agent of the space has a row of the view — it is the `i`-th agent of `space.agents`
+    for the `i < _n_agents` that `_agent_to_index` gives, and reading its position never raises and returns that row, whether
+    or not it has been assigned one (the bookkeeping of `C10_exp_positions_all_histories` says what it reads only once it was
+    assigned). -/
 theorem C10_exp_every_agent_has_a_row (c : ECfg) (cap : Nat) (ops : List EOp) (a : Aid) :
-    a ∈ (erun c cap ops).active → ∃ q, agentGet (erun c cap ops) a = .ok q ∧ getPos (erun c cap ops) a = .ok q := by
-  intro ha
+    let s := erun c cap ops
+    a ∈ s.active → ∃ i, i < s.n ∧ s.n ≤ s.cap ∧ s.a2i a = some i ∧ s.active[i]? = some a ∧
+      agentGet s a = .ok (s.buf i) ∧ getPos s a = .ok (s.buf i) := by
+  intro s ha
   have h := (erun_refines c cap ops).inv
   obtain ⟨i, hi⟩ := (h.mem_iff a).mp ha
-  exact ⟨_, by rw [agentGet_of_mem h ha]; exact getPos_of_idx h hi, getPos_of_idx h hi⟩
+  exact ⟨i, h.lt hi, h.cap, hi, (h.idx a i).mp hi, by rw [agentGet_of_mem h ha]; exact getPos_of_idx h hi, getPos_of_idx h hi⟩
 
 /-- Legacy, every pair of histories: if `a` is placed at (or, being in the space, moved to) `p`, the assignment rule stores
     `p'` for `p`, and no later call places, moves or removes `a` — whatever is done to other agents and whenever the cache is
@@ -1355,6 +1359,50 @@ theorem C10_exp_difference_metric (c : ECfg) (hw : c.WF) (p q : Pos) (hp : p.len
   rw [C10_exp_distance_is_metric c hw p q hp hq]
   exact C10_exp_difference_length c hw p q
 
+/-- Experimental `calculate_difference_vector(point, agents)`, direction and arrival (the sign convention is the code's,
+    `positions - point`: the vector points FROM the point TO the agent).  For ANY point `p` and position `q` with one
+    coordinate per axis the result has one coordinate per axis and, axis by axis, `p[i] + diff[i] = q[i]` in a bounded space
+    and `p[i] + diff[i] = q[i] + k·size_i` for an integer `k` on a torus: following the vector from the point arrives at the
+    agent / at a periodic image of the agent.  With `C10_exp_difference_metric` (its length is the least distance to any
+    image) it is a shortest such vector; the negated vector does not satisfy this (example below). -/
+theorem C10_exp_difference_reaches (c : ECfg) (p q : Pos) (hp : p.length = c.dims.length) (hq : q.length = c.dims.length) :
+    (ediff c p q).length = c.dims.length ∧
+    ∀ i, i < c.dims.length → ∃ x y h d, p[i]? = some x ∧ q[i]? = some y ∧ (ediff c p q)[i]? = some h ∧ c.dims[i]? = some d ∧
+      (c.torus = false → x + h = y) ∧ (c.torus = true → ∃ k : Int, x + h = y + k * (d.2 - d.1)) :=
+  diffAux_reaches c.torus c.dims p q hp hq
+
+/-- Experimental, every history: `calculate_difference_vector(pt)` lists the agents of the space in the order of `space.agents`,
+    each once, paired with the difference vector from `pt` to its true position (to which `C10_exp_difference_reaches` and
+    `C10_exp_difference_metric` apply). -/
+theorem C10_exp_differences_exact (c : ECfg) (cap : Nat) (ops : List EOp) (pt : Pos) (a : Aid) (v : Pos) :
+    let s := erun c cap ops
+    (∃ l, diffsOf s pt none = .ok l ∧ l.map (·.1) = s.active ∧ ((a, v) ∈ l ↔
+      a ∈ s.active ∧ ∃ q, getPos s a = .ok q ∧ v = ediff c pt q)) := by
+  have h := erun_refines c cap ops
+  refine ⟨_, rfl, ?_, ?_⟩
+  · rw [List.map_fst_zip]
+    simp [rows, h.inv.view, h.inv.len]
+  · rw [List.zip_map_right, List.mem_map, h.cfg]
+    constructor
+    · rintro ⟨⟨b, q⟩, hm, he⟩
+      simp only [Prod.map, id, Prod.mk.injEq] at he
+      obtain ⟨rfl, rfl⟩ := he
+      obtain ⟨h1, h2⟩ := (mem_zip_rows h.inv b q).mp hm
+      exact ⟨h1, q, h2, rfl⟩
+    · rintro ⟨h1, q, h2, rfl⟩
+      exact ⟨(a, q), (mem_zip_rows h.inv a q).mpr ⟨h1, h2⟩, rfl⟩
+
+/-- Experimental, any number of dimensions: two points with one coordinate per axis are at distance 0 exactly when on every
+    axis their coordinates are equal or — on a torus — a whole number of sizes apart (periodic images of each other); the
+    n-D counterpart of `C10_legacy_zero_distance_iff_same_point`.  Since both edges of an axis are inside an experimental
+    space, `min` and `max` are distinct stored coordinates at distance 0 on a torus (example below). -/
+theorem C10_exp_zero_distance_iff (c : ECfg) (hw : c.WF) (p q : Pos) (hp : p.length = c.dims.length)
+    (hq : q.length = c.dims.length) :
+    edist2 c p q = 0 ↔
+      ∀ (i : Nat) (x y : Int) (d : Int × Int), p[i]? = some x → q[i]? = some y → c.dims[i]? = some d →
+        x = y ∨ (c.torus = true ∧ ∃ k : Int, x - y = k * (d.2 - d.1)) :=
+  dist2Aux_eq_zero_iff c.torus c.dims hw p q hp hq
+
 /-! ### histories with vectors of any length reduce to histories with vectors of the right length -/
 
 /-- Every history of calls with vectors of ANY length leaves the space exactly as the history does in which each vector is
@@ -1573,6 +1621,12 @@ example : (lrun exL ([.place 1 (0, 0), .place 2 (5, 5)] ++ [LOp.move 2 (700, 64)
 example : [EOp.new 1, .set 1 [5], .set 1 [6, 6], .iadd 1 [1]].filterMap (normOp 3) = [.new 1, .set 1 [5, 5, 5], .iadd 1 [1, 1, 1]] := by
   decide
 example : agentGet (erunV exE 0 [.new 1, .set 1 [5], .set 1 [6, 6], .iadd 1 [1]]) 1 = .ok [6, 6, 6] := by rfl
+/-! direction of the difference vector: from the point to the agent (`positions - point`); the negated vector would arrive at
+    `[-10, -20, -30]`; on the torus the vector to `[630, 0]` from `[0, 0]` goes back through the edge -/
+example : ediff exE [0, 0, 0] [10, 20, 30] = [10, 20, 30] := by decide
+example : ediff exE [10, 20, 30] [0, 0, 0] = [-10, -20, -30] := by decide
+example : ediff exTorE [0, 0] [630, 0] = [-10, 0] := by decide
+example : edist2 exTorE [0, 5] [640, 5] = 0 ∧ edist2 exTorE [0, 5] [639, 5] = 1 := by decide
 /-! the wrapped value: `[700, -10]` on the torus `[0,640]²` is stored as `[60, 630]` -/
 example : eassign exTorE [700, -10] = some [60, 630] := by decide
 end Examples
